@@ -151,9 +151,11 @@ pub fn new_embedded_client<T: TypeConfig>(
     cmd_tx: mpsc::Sender<ClientCmd>,
     client_id: u32,
     timeout: Duration,
+    allow_client_override: bool,
     #[cfg(feature = "watch")] watch_registry: Option<Arc<d_engine_core::watch::WatchRegistry>>,
 ) -> EmbeddedClient<T> {
-    let read_handle = VerifEmbeddedReadHandle::<T>::new(sm, lease, cmd_tx);
+    let read_handle = VerifEmbeddedReadHandle::<T>::new(sm, lease, cmd_tx)
+        .with_client_override(allow_client_override);
     let client = EmbeddedClient::<T>::new_internal(event_tx, read_handle, client_id, timeout);
     #[cfg(feature = "watch")]
     let client = match watch_registry {
